@@ -1,4 +1,4 @@
-import LccModel.Lemmas.Session
+import LccModel.Lemmas.SessionSteps
 
 /-!
   Which events a `Session` call can fire (`step_fired_kinds`), and locality of cursors.
@@ -49,6 +49,7 @@ def opFor (L : Loc) : Op → Bool
   | .startSuiteSetup p | .endSuiteSetup p => L == .suiteSetup p
   | .startSuiteTeardown p | .endSuiteTeardown p => L == .suiteTeardown p
   | .startTest p _ | .endTest p | .skipTest p _ _ | .disableTest p _ _ => L == .test p
+  | .startTestSession | .endTestSession | .startSuite _ _ | .endSuite _ => false
   | _ => true
 
 /-- ops issued while user code runs (no bracketing event of their own) -/
@@ -238,8 +239,8 @@ theorem step_loc {L : Loc} {s s' : St} {tid : Nat} {op : Op} (hinv : LocInv L s)
     have hcur := locInv_cur hinv hc
     exact locInv_store tid hinv ((hloc_endStepIfAny s tid c hcur).mono (fun e he => Or.inl he))
   cases op with
-  | startTestSession => simp only [step] at h; injection h with h; subst h; exact single _ _ rfl rfl rfl rfl
-  | endTestSession => simp only [step] at h; injection h with h; subst h; exact single _ _ rfl rfl rfl rfl
+  | startTestSession => cases hop
+  | endTestSession => cases hop
   | startSessionSetup =>
     simp only [step] at h; injection h with h; subst h
     exact phaseStart _ _ (by simpa [opFor] using hop) (by simpa [opFor, innerEv] using hop)
@@ -248,9 +249,8 @@ theorem step_loc {L : Loc} {s s' : St} {tid : Nat} {op : Op} (hinv : LocInv L s)
     simp only [step] at h; injection h with h; subst h
     exact phaseStart _ _ (by simpa [opFor] using hop) (by simpa [opFor, innerEv] using hop)
   | endSessionTeardown => simp only [step] at h; exact phaseEnd _ _ (fun _ => rfl) h
-  | startSuite p md =>
-    simp only [step] at h; injection h with h; subst h; exact single _ _ rfl rfl rfl (by simp [opEv])
-  | endSuite p => simp only [step] at h; injection h with h; subst h; exact single _ _ rfl rfl rfl (by simp [opEv])
+  | startSuite p md => cases hop
+  | endSuite p => cases hop
   | startSuiteSetup p =>
     simp only [step] at h; injection h with h; subst h
     exact phaseStart _ _ (by simpa [opFor] using hop) (by simpa [opFor, innerEv] using hop)
@@ -389,5 +389,203 @@ theorem step_inner {L : Loc} {s s' : St} {tid : Nat} {op : Op} (hinv : LocInv L 
   rcases h3 e he with h | h
   · exact h
   · rw [opEv_inner hop] at h; cases h
+
+
+/-! ### The task's own terminal events -/
+
+/-- the bracketing events of location `L` other than the held phase start: start/end/skipped/disabled of
+    the test, the end event of the setup/teardown phase -/
+def termEv (L : Loc) : Event → Bool
+  | .sessionSetupEnd _ => L == .sessionSetup
+  | .sessionTeardownEnd _ => L == .sessionTeardown
+  | .suiteSetupEnd p _ => L == .suiteSetup p
+  | .suiteTeardownEnd p _ => L == .suiteTeardown p
+  | .testStart p _ _ => L == .test p
+  | .testEnd p _ => L == .test p
+  | .testSkipped p _ _ _ => L == .test p
+  | .testDisabled p _ _ _ => L == .test p
+  | _ => false
+
+/-- an event of the task working at `L`: it carries location `L`, or it is the start/end/skipped/disabled
+    event of `L` itself -/
+def ownEv (L : Loc) (e : Event) : Bool := innerEv L e || termEv L e
+
+theorem termEv_of_opEv {L : Loc} {op : Op} {e : Event} (h1 : opFor L op = true) (h2 : opEv op e = true) :
+    termEv L e = true := by
+  cases op <;> cases e <;> simp [opEv] at h2 <;> simp_all [opFor, termEv]
+
+/-- a call of a task working at `L` fires events of `L` only -/
+theorem step_own {L : Loc} {s s' : St} {tid : Nat} {op : Op} (hinv : LocInv L s) (hop : opFor L op = true)
+    (h : step s tid op = .ok s') :
+    LocInv L s' ∧ ∃ new, s'.fired = s.fired ++ new ∧ ∀ e ∈ new, ownEv L e = true := by
+  obtain ⟨h1, new, h2, h3⟩ := step_loc hinv hop h
+  refine ⟨h1, new, h2, fun e he => ?_⟩
+  unfold ownEv
+  rcases h3 e he with h | h
+  · simp [h]
+  · simp [termEv_of_opEv hop h]
+
+/-! ### Cursors are never removed -/
+
+theorem discardOrFire_cursors (s : St) (c : Cursor) (isC : Event → Bool) (e : Event) :
+    (discardOrFire s c isC e).1.cursors = s.cursors := by
+  unfold discardOrFire
+  cases c.pending.getLast? with
+  | none => rfl
+  | some last => simp only; split <;> rfl
+
+theorem endStepIfAny_cursors (s : St) (tid : Nat) (c : Cursor) : (endStepIfAny s tid c).1.cursors = s.cursors :=
+  (helper_endStepIfAny s tid c).cursors
+
+theorem getCursor_isSome_setCursor {s s1 : St} (h : s1.cursors = s.cursors) (t : Nat) (c : Cursor) (a : Nat)
+    (ha : (getCursor s a).isSome = true) : (getCursor (setCursor s1 t c) a).isSome = true := by
+  rw [getCursor_setCursor]
+  by_cases e : a = t
+  · simp [e]
+  · simp only [e, if_false]; rw [getCursor_congr h]; exact ha
+
+/-- a thread that has a cursor keeps one, whatever any thread does -/
+theorem step_hasCursor {s s' : St} {tid : Nat} {op : Op} (a : Nat) (ha : (getCursor s a).isSome = true)
+    (h : step s tid op = .ok s') : (getCursor s' a).isSome = true := by
+  have same : ∀ s1 : St, s1.cursors = s.cursors → (getCursor s1 a).isSome = true := by
+    intro s1 h1; rw [getCursor_congr h1]; exact ha
+  have viaEndPhase : ∀ (isC : Event → Bool) (mk : Nat → Event), endPhase s tid isC mk = .ok s' →
+      (getCursor s' a).isSome = true := by
+    intro isC mk h
+    unfold endPhase withCursor at h
+    cases hc : getCursor s tid with
+    | none => rw [hc] at h; cases h
+    | some c =>
+      rw [hc] at h; simp only at h; injection h with h; subst h
+      exact getCursor_isSome_setCursor (by rw [discardOrFire_cursors]; exact endStepIfAny_cursors s tid c) _ _ _ ha
+  have viaStepped : ∀ (s0 : St) (failing : Bool) (mk : Loc → Option String → Nat → Event),
+      s0.cursors = s.cursors → stepped s0 tid failing mk = .ok s' → (getCursor s' a).isSome = true := by
+    intro s0 failing mk h0 h
+    unfold stepped withCursor at h
+    cases hc : getCursor s0 tid with
+    | none => rw [hc] at h; cases h
+    | some c =>
+      rw [hc] at h; simp only at h; injection h with h; subst h
+      refine getCursor_isSome_setCursor ?_ _ _ _ ha
+      cases failing <;> simp [flush, h0]
+  have viaEndStep : ∀ c, s' = setCursor (endStepIfAny s tid c).1 tid (endStepIfAny s tid c).2 →
+      (getCursor s' a).isSome = true := by
+    intro c hs; subst hs
+    exact getCursor_isSome_setCursor (endStepIfAny_cursors s tid c) _ _ _ ha
+  cases op with
+  | startTestSession => simp only [step] at h; injection h with h; subst h; exact same _ rfl
+  | endTestSession => simp only [step] at h; injection h with h; subst h; exact same _ rfl
+  | startSessionSetup =>
+    simp only [step, startPhase] at h; injection h with h; subst h
+    exact getCursor_isSome_setCursor (s := s) rfl _ _ _ ha
+  | endSessionSetup => simp only [step] at h; exact viaEndPhase _ _ h
+  | startSessionTeardown =>
+    simp only [step, startPhase] at h; injection h with h; subst h
+    exact getCursor_isSome_setCursor (s := s) rfl _ _ _ ha
+  | endSessionTeardown => simp only [step] at h; exact viaEndPhase _ _ h
+  | startSuite p md => simp only [step] at h; injection h with h; subst h; exact same _ rfl
+  | endSuite p => simp only [step] at h; injection h with h; subst h; exact same _ rfl
+  | startSuiteSetup p =>
+    simp only [step, startPhase] at h; injection h with h; subst h
+    exact getCursor_isSome_setCursor (s := s) rfl _ _ _ ha
+  | endSuiteSetup p => simp only [step] at h; exact viaEndPhase _ _ h
+  | startSuiteTeardown p =>
+    simp only [step, startPhase] at h; injection h with h; subst h
+    exact getCursor_isSome_setCursor (s := s) rfl _ _ _ ha
+  | endSuiteTeardown p => simp only [step] at h; exact viaEndPhase _ _ h
+  | startTest p md =>
+    simp only [step] at h; injection h with h; subst h
+    exact getCursor_isSome_setCursor (s := s) rfl _ _ _ ha
+  | endTest p =>
+    simp only [step, withCursor] at h
+    cases hc : getCursor s tid with
+    | none => rw [hc] at h; cases h
+    | some c =>
+      rw [hc] at h; simp only at h; injection h with h; subst h
+      exact getCursor_isSome_setCursor (endStepIfAny_cursors s tid c) _ _ _ ha
+  | skipTest p md reason => simp only [step] at h; injection h with h; subst h; exact same _ (by simp)
+  | disableTest p md reason => simp only [step] at h; injection h with h; subst h; exact same _ rfl
+  | setStep d =>
+    simp only [step, withCursor] at h
+    cases hc : getCursor s tid with
+    | none => rw [hc] at h; cases h
+    | some c =>
+      rw [hc] at h; simp only at h; injection h with h; subst h
+      exact getCursor_isSome_setCursor (endStepIfAny_cursors s tid c) _ _ _ ha
+  | endStep =>
+    simp only [step, withCursor] at h
+    cases hc : getCursor s tid with
+    | none => rw [hc] at h; cases h
+    | some c =>
+      rw [hc] at h; simp only at h
+      cases hst : c.step with
+      | none => rw [hst] at h; cases h
+      | some d => rw [hst] at h; simp only at h; injection h with h; exact viaEndStep c h.symm
+  | log level msg => simp only [step] at h; exact viaStepped s _ _ rfl h
+  | check d ok details => simp only [step] at h; exact viaStepped s _ _ rfl h
+  | url u d => simp only [step] at h; exact viaStepped s _ _ rfl h
+  | attach filename d asImage =>
+    simp only [step] at h
+    exact viaStepped { s with attachCount := s.attachCount + 1 } false
+      (fun loc st t => Event.attachment loc st tid (attachName (s.attachCount + 1) filename) d asImage t) rfl h
+  | threadCreate newTid =>
+    simp only [step, withCursor] at h
+    cases hc : getCursor s tid with
+    | none => rw [hc] at h; cases h
+    | some c =>
+      rw [hc] at h; simp only at h
+      split at h
+      · cases h
+      · injection h with h; subst h
+        cases hpend : c.pending with
+        | nil => simp only; exact getCursor_isSome_setCursor (s := s) rfl _ _ _ ha
+        | cons e rest =>
+          simp only
+          split
+          · exact getCursor_isSome_setCursor (s := s) rfl _ _ _ ha
+          · exact getCursor_isSome_setCursor (s := s) (s1 := fire s e) rfl _ _ _ ha
+  | threadRun =>
+    simp only [step] at h
+    cases hf : s.saved.find? (fun p => p.1 == tid) with
+    | none => rw [hf] at h; cases h
+    | some p =>
+      rw [hf] at h
+      obtain ⟨t0, c, dflt⟩ := p
+      simp only at h
+      cases dflt with
+      | none => cases h
+      | some d =>
+        simp only at h; injection h with h; subst h
+        exact getCursor_isSome_setCursor (s := s) rfl _ _ _ ha
+  | threadEnd =>
+    simp only [step, withCursor] at h
+    cases hc : getCursor s tid with
+    | none => rw [hc] at h; cases h
+    | some c =>
+      rw [hc] at h; simp only at h
+      cases hst : c.step with
+      | none => rw [hst] at h; cases h
+      | some d => rw [hst] at h; simp only at h; injection h with h; exact viaEndStep c h.symm
+
+/-! ### Exact shapes of the bracketing calls -/
+
+theorem step_startTest (s : St) (tid : Nat) (p : Path) (md : Meta) :
+    ∃ s', step s tid (.startTest p md) = .ok s' ∧ s'.fired = s.fired ++ [.testStart p md s.now] ∧
+      (getCursor s' tid).isSome = true :=
+  ⟨_, rfl, rfl, by rw [getCursor_setCursor]; simp⟩
+
+/-- `end_test` by a thread that has a cursor: at most the end of the open step, then exactly one `testEnd` -/
+theorem step_endTest {L : Loc} {s : St} {tid : Nat} (p : Path) (hinv : LocInv L s)
+    (hc : (getCursor s tid).isSome = true) :
+    ∃ s' pre t, step s tid (.endTest p) = .ok s' ∧ s'.fired = s.fired ++ pre ++ [.testEnd p t] ∧
+      ∀ e ∈ pre, innerEv L e = true := by
+  cases hg : getCursor s tid with
+  | none => rw [hg] at hc; cases hc
+  | some c =>
+    have hcur := locInv_cur hinv hg
+    obtain ⟨pre, hpre, hq⟩ := (hloc_endStepIfAny s tid c hcur).ext
+    refine ⟨setCursor (fire (tick (endStepIfAny s tid c).1) (.testEnd p (endStepIfAny s tid c).1.now)) tid
+        (endStepIfAny s tid c).2, pre, (endStepIfAny s tid c).1.now, by simp only [step, withCursor, hg], ?_, hq⟩
+    simp [hpre]
 
 end LccModel.Session
